@@ -48,8 +48,16 @@ func init() {
 		Rule: "cases = PRNG multi-writer event-log histories (2-4 writers, forks and merges) with random merge sequences and snapshot save / load-into-the-live-store steps; at every checkpoint on every replica: earlier listing is a subsequence of the later one, entries follow everything their writer had seen, writers' entries keep write order; at selected checkpoints all window queries are ENUMERATED: bound kind {none,gt,gte,lt,lte} x bound = every entry x amount {unset,0,1,2,len-1,len,len+3,-1,-7} via List and Stream, and Get(h) for every h. In one history in three (and in every history that holds index rebuilds) one reader goroutine per replica queries it throughout; what a reader sees must only move forward: listings grow as subsequences, the states of a key are explained by entries of increasing rank in the reference total order. " +
 			"distinct = hash(step script); non-trivial = >= 2 writers and >= 4 entries and >= 50 window queries judged",
 		Assumptions: []string{"bounds are entries of the log (hashes outside the log are excluded by the property)", "two bounds at once are exercised but not judged"},
-		Cases:       func(tier string, seed int64) []fw.Case { return lwwCases(tier, seed, tEvent, 40, 300) },
-		Run:         func(c fw.Case) fw.Verdict { return lwwRun(c, tEvent) },
+		Cases: func(tier string, seed int64) []fw.Case {
+			cs := lwwCases(tier, seed, tEvent, 40, 300)
+			return append(cs, c08LoadCases(tier, seed, len(cs))...)
+		},
+		Run: func(c fw.Case) fw.Verdict {
+			if c.Str("mode", "") == "load-race" {
+				return c08LoadRun(c)
+			}
+			return lwwRun(c, tEvent)
+		},
 		MinDistinct: map[string]int{"quick": 15, "thorough": 100},
 		Batch:       8,
 		Explain:     "oracle: subsequence stability, writer-seen order, exact windows against the documented iterator contract written independently of query/read.",
